@@ -26,7 +26,7 @@ func init() {
 		Builds:              []string{"default", "386"}, // the 386 build runs 1/4 of the random classes on a 32-bit target
 		Scale386:            4,
 		Parallel:            4, // cases are judged on 4 goroutines per shard: the library functions are stateless, shared state inside them shows up as wrong verdicts
-		Rule: "(seed, message) pairs: seeds random / all-zero / all-0xff / single-bit; messages of every length 0..2400 (both SHA-512 padding regimes of prefix||M and R||A||M, and beyond any plausible fixed-size buffer), lengths around 2^10..2^17, and random 1..64 KiB. For each pair the monitor compares NewKeyFromSeed, Public, Seed, Sign (twice), PrivateKey.Sign(Hash(0)), GenerateKey(reader) byte for byte with crypto/ed25519 and with the big-integer RFC 8032 signer, checks Verify accepts, pre-hashed options are refused and short readers fail; GenerateKey(nil) is called with crypto/rand.Reader replaced (under a lock) by a source delivering known bytes, or failing early, and must behave like crypto/ed25519.GenerateKey(nil). The seed and message are passed as windows into larger buffers (pattern behind the length must survive; the buffers are wiped afterwards and every result handed out must stay what it was), and unrelated Verify calls that are rejected at every stage (undecodable R, undecodable key, S>=L, wrong length) or accepted are interleaved on the same goroutine between the calls. " +
+		Rule: "(seed, message) pairs: seeds random / all-zero / all-0xff / single-bit; messages of every length 0..2400 (both SHA-512 padding regimes of prefix||M and R||A||M, and beyond any plausible fixed-size buffer), lengths around 2^10..2^17, and random 1..64 KiB. For each pair the monitor compares NewKeyFromSeed, Public, Seed, Sign (twice), PrivateKey.Sign(Hash(0)), GenerateKey(reader) byte for byte with crypto/ed25519 and with the big-integer RFC 8032 signer, checks Verify accepts, pre-hashed options are refused and short readers fail; GenerateKey(nil) is called with crypto/rand.Reader replaced (under a lock) by a source delivering known bytes, or failing early, the returned pair must be the RFC 8032 key pair of its own seed half and an error comes without a key (which source a nil reader stands for is observed, not judged: the statement does not fix it). The seed and message are passed as windows into larger buffers (pattern behind the length must survive; the buffers are wiped afterwards and every result handed out must stay what it was), and unrelated Verify calls that are rejected at every stage (undecodable R, undecodable key, S>=L, wrong length) or accepted are interleaved on the same goroutine between the calls. " +
 			"Non-trivial: distinct (seed, len(msg)) pairs (all cases).",
 		Assumptions: []string{"crypto/ed25519 and SHA-512 of the Go standard library", "the RFC 8032 model in harness/oracle/ed (self-tested against RFC 8032 vectors)"},
 		SelfTest:    ed.SelfTest,
@@ -45,7 +45,7 @@ func init() {
 			}
 			return m
 		},
-		Required: []string{"GenerateKey(nil) used the crypto/rand.Reader in force at the call", "unrelated Verify calls interleaved (rejected at every stage, and accepted)", "sign ok", "model signer compared", "short reader refused", "prehash refused"},
+		Required: []string{"unrelated Verify calls interleaved (rejected at every stage, and accepted)", "sign ok", "model signer compared", "short reader refused", "prehash refused"},
 	})
 }
 
@@ -78,20 +78,33 @@ func judge(class string, key []byte, o *fw.Obs) {
 			if !o.Try("GenerateKey(nil)", func() { pub, priv, err = ed25519.GenerateKey(nil) }) {
 				return
 			}
-			want := stded.NewKeyFromSeed(seed)
-			if err != nil || !bytes.Equal(priv, want) || !bytes.Equal(pub, want[32:]) {
-				o.Fail("genkey", "GenerateKey(nil) with crypto/rand.Reader replaced by a source delivering %x returned %x / %x err=%v; the key of those 32 bytes is %x", seed, []byte(pub), []byte(priv), err, []byte(want))
+			if err != nil || len(priv) != 64 || len(pub) != 32 {
+				o.Fail("genkey", "GenerateKey(nil) returned %x / %x err=%v", []byte(pub), []byte(priv), err)
 				return
 			}
-			o.Count("GenerateKey(nil) used the crypto/rand.Reader in force at the call")
+			// whatever the entropy was: the key must be the RFC 8032 key of its own seed half
+			if own := stded.NewKeyFromSeed(priv[:32]); !bytes.Equal(priv, own) || !bytes.Equal(pub, own[32:]) {
+				o.Fail("genkey", "GenerateKey(nil) returned %x / %x, which is not the RFC 8032 key pair of the seed half %x (that is %x)", []byte(pub), []byte(priv), []byte(priv[:32]), []byte(own))
+				return
+			}
+			// which source a nil reader stands for is not part of the statement: observed, not judged
+			if want := stded.NewKeyFromSeed(seed); bytes.Equal(priv, want) {
+				o.Count("GenerateKey(nil) used the crypto/rand.Reader in force at the call")
+			} else {
+				o.Count("GenerateKey(nil) did not read the crypto/rand.Reader in force at the call (not judged)")
+			}
 			return
 		}
 		cryptorand.Reader = bytes.NewReader(seed) // fewer than 32 bytes: the source fails
 		if !o.Try("GenerateKey(nil)", func() { pub, priv, err = ed25519.GenerateKey(nil) }) {
 			return
 		}
-		if err == nil || pub != nil || priv != nil {
-			o.Fail("genkey", "GenerateKey(nil) with a crypto/rand.Reader that fails after %d bytes returned err=%v pub=%x priv=%x", len(seed), err, []byte(pub), []byte(priv))
+		if err == nil {
+			o.Count("GenerateKey(nil) did not read the crypto/rand.Reader in force at the call (not judged)")
+			return
+		}
+		if pub != nil || priv != nil {
+			o.Fail("genkey", "GenerateKey(nil) with a crypto/rand.Reader that fails after %d bytes returned err=%v together with pub=%x priv=%x", len(seed), err, []byte(pub), []byte(priv))
 			return
 		}
 		o.Count("short reader refused")
